@@ -152,7 +152,7 @@ Qed.
 Lemma p_once_ep_poll c s desc : p_once s -> p_once (p_ep_poll c s desc).
 Proof.
   intros Q. unfold p_ep_poll.
-  destruct (p_ep_ready c s (if desc then rev (seq 0 (length c)) else seq 0 (length c))); [exact Q|].
+  destruct (p_ep_batch c s (if desc then rev (seq 0 (length c)) else seq 0 (length c))); [exact Q|].
   eapply p_once_same; [split; reflexivity|].
   apply p_once_fold; auto. intros. apply p_once_ep_check; auto.
 Qed.
@@ -342,7 +342,7 @@ Qed.
 Lemma p_cok_ep_poll c s desc : p_cok s -> p_cok (p_ep_poll c s desc).
 Proof.
   intros Q. unfold p_ep_poll.
-  destruct (p_ep_ready c s (if desc then rev (seq 0 (length c)) else seq 0 (length c))); [exact Q|].
+  destruct (p_ep_batch c s (if desc then rev (seq 0 (length c)) else seq 0 (length c))); [exact Q|].
   eapply p_cok_same; [reflexivity|].
   apply p_cok_fold; auto. intros. apply p_cok_ep_check; auto.
 Qed.
